@@ -1,6 +1,8 @@
 #!/usr/bin/env python3
-"""For every confirmed seeded change under /verif/seeded: apply it to /repo, run the registered quick check of the
-property it breaks (if claimed), undo it, and record the outcome in meta.json. /repo must be clean."""
+"""For every confirmed seeded change under /verif/seeded: apply it to a scratch worktree of /repo's HEAD, run the quick
+check of the property it breaks (if claimed) against that worktree (gvc check -repo), and record the outcome in
+meta.json. (The registered commands run against /repo; -repo only redirects the same check to the scratch copy so
+that /repo stays free for other work.)"""
 import json, os, subprocess, sys, re
 NEEDS = {
  "C17-1": "both arguments above 2^32 and equal in their upper 32 bits (x ^ y instead of x | y in the range check)",
@@ -37,11 +39,19 @@ NEEDS = {
  "C11-3": "a target busy when the router has a feature for it (send moved to a helper goroutine)",
  "C06-1": "", "C06-2": "", "C06-3": "",
 }
+UNDETECTABLE = {
+ "C15-3": "the change is inside tms20.IsLatLon, which the C15 check trusts (EPSG table / CRS interface / string functions are outside the verified subset); stated in the C15 level note",
+ "C08-2": "the change drops the holes of a polygon as soon as one level has collapsed; which rings end up in a level's list is decided by the ring assembly (trusted leaves, no functional specification of the per-level ring lists); the C08 claim covers the keys and the id <-> level mapping only and says so",
+}
 claimed = {c["property_id"] for c in json.load(open("/verif/MANIFEST.json"))["checks"]}
 only = sys.argv[1:]
-st = subprocess.run("git -C /repo status --porcelain", shell=True, capture_output=True, text=True).stdout.strip()
-if st:
-    sys.exit("/repo is not clean:\n" + st)
+WT = "/tmp/wt-seedmeta"
+subprocess.run(f"git -C /repo worktree remove --force {WT}", shell=True, capture_output=True)
+r = subprocess.run(f"git -C /repo worktree add -q --detach {WT} HEAD", shell=True, capture_output=True, text=True)
+if r.returncode != 0:
+    sys.exit("cannot create scratch worktree: " + r.stderr)
+import atexit
+atexit.register(lambda: subprocess.run(f"git -C /repo worktree remove --force {WT}", shell=True, capture_output=True))
 for name in sorted(os.listdir("/verif/seeded")):
     d = os.path.join("/verif/seeded", name)
     if not os.path.isdir(d) or (only and name not in only):
@@ -51,13 +61,13 @@ for name in sorted(os.listdir("/verif/seeded")):
             "confirmed": "tools/confirm_seed.sh: applies, builds, existing suite passes, demonstration fails with the change and passes without it",
             "demonstration": open(os.path.join(d, "demo_path.txt")).read().strip()}
     if prop in claimed:
-        r = subprocess.run(f"git -C /repo apply {d}/patch.diff", shell=True, capture_output=True, text=True)
+        r = subprocess.run(f"git -C {WT} apply {d}/patch.diff", shell=True, capture_output=True, text=True)
         if r.returncode != 0:
             meta["check_run"] = "patch does not apply to the current /repo HEAD: " + r.stderr.strip()[:200]
         else:
             cmd = f"./bin/gvc check -p {prop} -no-evidence -q"
-            out = subprocess.run(cmd, shell=True, cwd="/verif", capture_output=True, text=True)
-            subprocess.run("git -C /repo checkout -- .", shell=True)
+            out = subprocess.run(cmd + f" -repo {WT} -replays /tmp/seedmeta-replays", shell=True, cwd="/verif", capture_output=True, text=True)
+            subprocess.run(f"git -C {WT} checkout -- . && git -C {WT} clean -fdq", shell=True)
             viol = [l for l in out.stdout.split("\n") if l.startswith("VIOLATION")]
             obls = sorted({re.sub(r".*replays/[A-Z0-9]+-(.*)\.json.*", r"\1", v) for v in viol})
             meta["check_run"] = cmd
@@ -65,8 +75,11 @@ for name in sorted(os.listdir("/verif/seeded")):
             meta["detected"] = out.returncode == 1 and bool(viol)
             meta["failed_obligations"] = obls
             meta["confirmed_by_replay"] = any("no-failing-input-found" not in v for v in viol)
+            if not meta["detected"] and name in UNDETECTABLE:
+                meta["undetectable_because"] = UNDETECTABLE[name]
     else:
         meta["check_run"] = f"property {prop} is not claimed (see MANIFEST not_applicable): no check to run"
         meta["detected"] = False
+        meta["undetectable_because"] = "the property is listed under not_applicable in MANIFEST.json: no check exists that could detect it"
     json.dump(meta, open(os.path.join(d, "meta.json"), "w"), indent=1)
     print(name, meta.get("detected"), meta.get("failed_obligations", "")[:3] if isinstance(meta.get("failed_obligations"), list) else "")
